@@ -8,7 +8,7 @@ func init() {
 		Title: "Subscription teardown is safe under every interleaving",
 		Kernels: []Kernel{
 			{Name: "teardown-all-interleavings", Pkg: ".", Files: files, Entry: "VerifTeardown", Mode: "all", Race: true,
-				Quick: map[string]int{"maxsteps": 1, "maxevents": 1, "ticks": 0, "slim": 1}, Thorough: map[string]int{"maxsteps": 1, "maxevents": 1, "ticks": 0, "slim": 0},
+				Quick: map[string]int{"maxsteps": 1, "maxevents": 1, "ticks": 0, "slim": 1}, Thorough: map[string]int{"maxsteps": 1, "maxevents": 1, "ticks": 0, "slim": 1, "kinds": 9, "mayreset": 1, "barepayload": 1, "budget_s": 6000},
 				Reach: []string{"handler returned"}, Functions: fns},
 			// two client messages: start followed by each kind of second message, one slice per kernel
 			// (the unsliced exploration exceeded the 62 GB of this machine)
@@ -30,8 +30,8 @@ func init() {
 			// two running subscriptions and every third message, under the canonical schedule: what has to be
 			// closed at the end is closed (every upstream connection, every goroutine)
 			{Name: "two-subscriptions-canonical", Pkg: ".", Files: files, Entry: "VerifTeardown", Mode: "seq",
-				Quick:    map[string]int{"maxsteps": 3, "maxevents": 1, "ticks": 0, "pin_first": 0, "pin_second": 6},
-				Thorough: map[string]int{"maxsteps": 3, "maxevents": 1, "ticks": 0, "pin_first": 0, "pin_second": 6},
+				Quick:    map[string]int{"maxsteps": 3, "maxevents": 1, "ticks": 0, "pin_first": 0, "pin_second": 6, "kinds": 9, "mayreset": 1, "barepayload": 1},
+				Thorough: map[string]int{"maxsteps": 3, "maxevents": 1, "ticks": 0, "pin_first": 0, "pin_second": 6, "kinds": 9, "mayreset": 1, "barepayload": 1},
 				Reach:    []string{"handler returned", "two subscriptions running"}, Functions: fns},
 			// a second connection_init while a subscription delivers an event: the acknowledgement and the event
 			// frame are written by different goroutines
@@ -46,7 +46,7 @@ func init() {
 		},
 		Assume: []string{
 			"websocket library = harness connection model (message queue + closed flag; a text frame is two writes with a scheduling point between them); upgrade and dial always succeed; the ticker may fire at any scheduling point at most `ticks` times",
-			"client scripts of <= maxsteps messages from {start, stop, stop of unknown id, terminate, malformed JSON, unknown type, second start} followed by an abrupt disconnect; upstream scripts of <= maxevents events followed by complete / error frame / disconnect / staying open",
+			"client scripts of <= maxsteps messages from {start, stop, stop of unknown id, terminate, malformed JSON, unknown type, second start, connection_init again, start without payload} followed by an abrupt disconnect (optionally a connection reset: the gateway's writes fail from then on); the upstream may send a data message without payload; upstream scripts of <= maxevents events followed by complete / error frame / disconnect / staying open",
 			"engine's model of channels, select, Mutex (TryLock), defer/recover (exact nested semantics), closing a channel panics parked senders in their own goroutine",
 		},
 		Outside: []string{"real websocket framing and TCP", "several client connections at once", "longer scripts"},
